@@ -9,7 +9,7 @@ import ast
 
 from ..program import AnalysisError, walk_local, dotted
 from ..analysis import Spec, src, const_value
-from ..rules import (GWF, EXC, mpt, need_func, need_call, stores_to,
+from ..rules import (inside, before, GWF, EXC, mpt, need_func, need_call, stores_to,
                      parent_map, outcomes, explicit_exits, strip_wrappers,
                      chained_assign_value, raise_class)
 from . import common
@@ -487,7 +487,7 @@ def integration_vector(prog, an, rep):
     ys = [n for n in c.nodes.values() if n.kind == 'done' and
           isinstance(n.ast, ast.Expr) and
           isinstance(n.ast.value, ast.Yield) and
-          n.ast.lineno >= loop.lineno]
+          inside(loop, n)]
     head = c.stmt_node[id(loop)]
     tb = [s for s in c.succ[head] if c.nodes[s].kind == 'true']
     ok = True
